@@ -51,25 +51,35 @@ def _cvc5_check(smt2, timeout_s):
 
 
 def _work(args):
+    """Portfolio, in a fixed order: z3 with a small budget, cvc5, then z3 with the full budget."""
     idx, smt2, rlimit, timeout_ms, use_cvc5, cvc5_timeout, both = args
-    r, t, reason = _z3_check(smt2, rlimit, timeout_ms)
+    small = min(rlimit, 6_000_000)
+    r, t, reason = _z3_check(smt2, small, min(timeout_ms, 10_000))
     backend = "z3"
     extra = None
-    if (r in ("unknown", "error") and use_cvc5) or both:
+    total = t
+    if r in ("unknown", "error") and use_cvc5:
         r2, t2, reason2 = _cvc5_check(smt2, cvc5_timeout)
-        if r in ("unknown", "error"):
-            if r2 in ("sat", "unsat"):
-                return idx, r2, t + t2, "cvc5", reason2, None
-            return idx, "unknown", t + t2, "z3+cvc5", f"z3: {reason}; cvc5: {reason2}", None
+        total += t2
+        if r2 in ("sat", "unsat"):
+            return idx, r2, total, "cvc5", reason2, None
+        r3, t3, reason3 = _z3_check(smt2, rlimit, timeout_ms) if rlimit > small else (r, 0.0, reason)
+        total += t3
+        if r3 in ("sat", "unsat"):
+            return idx, r3, total, "z3", "", None
+        return idx, "unknown", total, "z3+cvc5", f"z3: {reason3 or reason}; cvc5: {reason2}", None
+    if both and r in ("sat", "unsat"):
+        r2, t2, reason2 = _cvc5_check(smt2, cvc5_timeout)
         extra = (r2, t2)
-    return idx, r, t, backend, reason, extra
+    return idx, r, total, backend, reason, extra
 
 
 def discharge(obligations, tier="quick", workers=None, progress=None):
     """Fill in .result/.backend/.time for obligations that have no result yet."""
     todo = [(i, ob) for i, ob in enumerate(obligations) if ob.result is None]
-    rlimit = 40_000_000 if tier == "quick" else 200_000_000
-    timeout_ms = 20_000 if tier == "quick" else 180_000
+    # deterministic resource limit first; the wall-clock cap is only a safety net sized well above it
+    rlimit = 60_000_000 if tier == "quick" else 300_000_000
+    timeout_ms = 60_000 if tier == "quick" else 600_000
     cvc5_timeout = 10 if tier == "quick" else 90
     both = tier == "thorough"
     jobs = []
